@@ -110,11 +110,13 @@ PLAN = {
     },
     "C10": {
         "level": "fault_enumeration",
-        "rule": "gate: every signature of a 14-member family (5 genuine bool functions of different shape/ABI/unsafety, 4 whose type text merely ends in `-> bool`, 5 other returns) x both values, judged accept iff the return type is bool, refusal before any OS event; registers: synthetic bool target near/far from the image at 6 page offsets, 8 seeded register files each through the assembly probe; simulation: forced boolean on A64/ARM under the reference interpreters; distinct = (mode, signature, value, placement, offset) tuples",
-        "assumptions": [A_N, A_S],
+        "rule": "gate: every signature of a 14-member family (5 genuine bool functions of different shape/ABI/unsafety, 4 whose type text merely ends in `-> bool`, 5 other returns) x both values, judged accept iff the return type is bool, refusal before any OS event; registers: synthetic bool target near/far from the image at 6 page offsets, 8 seeded register files each through the assembly probe; simulation: forced boolean on A64/ARM under the reference interpreters; under the deterministic scheduler, injector rounds of the exclusion and hand-over families also force a shared bool function (every call by the holder returns the forced value, preventers and later holders see the original, also after a holder let go by panicking); distinct = (mode, signature, value, placement, offset) tuples",
+        "assumptions": [A_N, A_S, A_T],
         "exhaustive": False,
         "parts": [n_part("N-gate-and-register-probe", "C10", 504, 50400, selftest=42, extra_args=["--family", "probe"]),
-                  s_part("S-boolean-stubs", "C10", "x86_64_linux,aarch64_linux,arm_linux", 6000, 600000)],
+                  s_part("S-boolean-stubs", "C10", "x86_64_linux,aarch64_linux,arm_linux", 6000, 600000),
+                  t_part("T-forced-value-under-handover", "handover", "C10", 3000, 300000),
+                  t_part("T-forced-value-under-exclusion", "excl", "C10", 3000, 300000)],
     },
     "C13": {
         "level": "fault_enumeration",
